@@ -4,6 +4,9 @@
 package c16
 
 import (
+	"github.com/influxdata/influxdb/prometheus/remote"
+	"github.com/golang/snappy"
+	"bytes"
 	"fmt"
 	"net/http"
 	"net/http/httptest"
@@ -79,7 +82,7 @@ func genCase(r *fw.Rand) fw.Case {
 			}
 			ops = append(ops, fmt.Sprintf("authq - %s %s", r.Pick(dbs), ids))
 			if r.Bool() {
-				ops = append(ops, fmt.Sprintf("hw %s %s p1 db0", r.Pick([]string{"none", "basic", "params", "bearer"}), r.Pick([]string{"-", "u0"})))
+				ops = append(ops, fmt.Sprintf("%s %s %s p1 db0", r.Pick([]string{"hw", "hpw"}), r.Pick([]string{"none", "basic", "params", "bearer"}), r.Pick([]string{"-", "u0"})))
 			} else {
 				ops = append(ops, fmt.Sprintf("hq %s - p1 db0 %s", r.Pick([]string{"none", "basic"}), ids))
 			}
@@ -117,7 +120,7 @@ func genCase(r *fw.Rand) fw.Case {
 				car := r.Pick([]string{"none", "basic", "params", "bearer"})
 				u := r.Pick(append(users, "-", "nobody"))
 				if r.Bool() {
-					ops = append(ops, fmt.Sprintf("hw %s %s p%d %s", car, u, r.Intn(4), r.Pick(dbs)))
+					ops = append(ops, fmt.Sprintf("%s %s %s p%d %s", r.Pick([]string{"hw", "hw", "hpw"}), car, u, r.Intn(4), r.Pick(dbs)))
 				} else {
 					ops = append(ops, fmt.Sprintf("hq %s %s p%d %s %s", car, u, r.Intn(4), r.Pick(dbs), stmts()))
 				}
@@ -145,7 +148,7 @@ func genCase(r *fw.Rand) fw.Case {
 				pw = "p0" // wrong
 			}
 			if r.Bool() {
-				ops = append(ops, fmt.Sprintf("hw %s %s %s %s", car, u, pw, r.Pick([]string{"db0", "db1"})))
+				ops = append(ops, fmt.Sprintf("%s %s %s %s %s", r.Pick([]string{"hw", "hw", "hpw"}), car, u, pw, r.Pick([]string{"db0", "db1"})))
 			} else {
 				ops = append(ops, fmt.Sprintf("hq %s %s %s db0 %s", car, u, pw, stmts()))
 			}
@@ -314,7 +317,7 @@ func (s *state) step(op string) string {
 			return "hang"
 		}
 		return "ok"
-	case "hq", "hw":
+	case "hq", "hw", "hpw":
 		// the same decisions through the HTTP front: a real httpd.Handler with authentication
 		// enabled over this node's meta client, a statement executor and a points writer that
 		// only record that they were reached
@@ -396,6 +399,17 @@ func (s *state) http(f []string) (res string) {
 	}
 	if f[0] == "hq" {
 		req = httptest.NewRequest("POST", "/query?"+vals.Encode(), nil)
+	} else if f[0] == "hpw" {
+		// the Prometheus remote-write endpoint: the same authorization as /write
+		wr := &remote.WriteRequest{Timeseries: []*remote.TimeSeries{{
+			Labels:  []*remote.LabelPair{{Name: "__name__", Value: "m"}, {Name: "host", Value: "a"}},
+			Samples: []*remote.Sample{{Value: 1, TimestampMs: 1600000000000}},
+		}}}
+		raw, err := wr.Marshal()
+		if err != nil {
+			return "err:prom-marshal"
+		}
+		req = httptest.NewRequest("POST", "/api/v1/prom/write?"+vals.Encode(), bytes.NewReader(snappy.Encode(nil, raw)))
 	} else {
 		req = httptest.NewRequest("POST", "/write?"+vals.Encode(), strings.NewReader("m v=1 1\n"))
 	}
@@ -421,6 +435,13 @@ func (s *state) http(f []string) (res string) {
 			b = 1
 		}
 		return fmt.Sprintf("%d exec=%d", w.Code, b)
+	}
+	if f[0] == "hpw" {
+		ok := 0
+		if w.Code == 204 {
+			ok = 1
+		}
+		return fmt.Sprintf("ok=%d wrote=%d", ok, pw.n)
 	}
 	return fmt.Sprintf("%d wrote=%d", w.Code, pw.n)
 }
@@ -458,6 +479,15 @@ func (Prop) Oracle(c fw.Case, implOut []string) fw.Verdict {
 		o := implOut[i]
 		if o == "hang" || strings.HasPrefix(o, "panic") {
 			return fw.Verdict{OK: false, Why: op + " => " + o, Signature: o + " in " + f[0]}
+		}
+		if f[0] == "hpw" {
+			// judged like /write
+			f = append([]string{"hw"}, f[1:]...)
+			if strings.HasSuffix(o, "wrote=1") {
+				o = "204 wrote=1"
+			} else {
+				o = "403 wrote=0"
+			}
 		}
 		if f[0] == "hq" || f[0] == "hw" {
 			// through the HTTP front: the request must carry valid credentials of a user the
